@@ -137,7 +137,8 @@ pub fn client_query<Client: QuakeClient>(
 }
 
 pub fn remove_wrapping_quotes<'a>(string: &&'a str) -> &'a str {
-    match string.starts_with('\"') && string.ends_with('\"') {
+    // a lone quote is both the start and the end: there is nothing to unwrap
+    match string.len() >= 2 && string.starts_with('\"') && string.ends_with('\"') {
         false => string,
         true => &string[1 .. string.len() - 1],
     }
